@@ -5,12 +5,19 @@
                  s:<id> submit   i idle   c close   o re-open (recover)   k:<n> skip-save-blocks
                  p:<0|1> writing-time target reached immediately / never   h hurry-up
     trace                                   -> ok <point name> <point name> …     (labels of the effect list)
-    crash <k>                               -> ok <tip1> <tip2> <coins2> <tip3> <coins3> <tie 0|1> | panic <what>
+    crash <k>                               -> ok <tip1> <tip2> <coins2> <tip3> <coins3> <tie 0|1> <foreign 0|1> | panic <what>
+        foreign = ghost flag: the restart read an undo file naming another block than the one it undid
         disk := first k effects applied; 1 = after NewChainExt, 2 = after the client's recovery loop,
         3 = after feeding every block of the workload + Idle
     final                                   -> ok <tip> <coins> | panic <what>     (uninterrupted run)
+    pos <a 0|1> <L> <tok> …                 -> ok <data file length> <every record reads back its block 0|1> <id>:<fpos>:<blen> …
+        positional block store (Model/PersistPos.lean): the directory holds the index records r:<id>:<fpos>:<blen> … and a data
+        file of L bytes (anything beyond the indexed data is an orphaned tail); it is opened (LoadBlockIndex + Seek), then
+        w:<id>:<len> = writeOne, m:<id>:<len> = killed between the data write and the index write + restart, o = restart;
+        a = 1: the data file handle is in O_APPEND mode (not what the code does)
 -/
 import GocoinV.Model.Persist
+import GocoinV.Model.PersistPos
 import GocoinV.Base.Proto
 open GocoinV GocoinV.Persist
 
@@ -53,8 +60,39 @@ def parseToks (defs : List Block) (acc : List Op) : List String → Option (List
       | none => none
     | _ => none
 
+def parsePos (recs : List PRec) (ops : List POp) : List String → Option (List PRec × List POp)
+  | [] => some (recs.reverse, ops.reverse)
+  | t :: rest =>
+    match t.splitOn ":" with
+    | ["r", id, fp, bl] =>
+      match id.toNat?, fp.toNat?, bl.toNat? with
+      | some id, some fp, some bl => if ops.isEmpty then parsePos ({ id := id, fpos := fp, blen := bl } :: recs) ops rest else none
+      | _, _, _ => none
+    | ["w", id, l] =>
+      match id.toNat?, l.toNat? with
+      | some id, some l => parsePos recs (POp.write id l :: ops) rest
+      | _, _ => none
+    | ["m", id, l] =>
+      match id.toNat?, l.toNat? with
+      | some id, some l => parsePos recs (POp.crashMid id l :: ops) rest
+      | _, _ => none
+    | ["o"] => parsePos recs (POp.restart :: ops) rest
+    | _ => none
+
+def posQuery (a : Bool) (len : Nat) (recs : List PRec) (ops : List POp) : String :=
+  let me := maxEnd recs
+  let ents := recs.map (fun r => (r.fpos, r.id, r.blen)) ++ (if len > me then [(me, 0, len - me)] else [])
+  let d : PDisk := { dat := { ents := ents, len := len }, idx := recs }
+  let s := prun a (popen d) ops
+  let rs := s.d.idx.map (fun r => s!"{r.id}:{r.fpos}:{r.blen}")
+  s!"ok {s.d.dat.len} {if readsBack s.d then 1 else 0}" ++ (if rs.isEmpty then "" else " " ++ " ".intercalate rs)
+
 def step (st : OState) (toks : List String) : OState × String :=
   match toks with
+  | "pos" :: a :: len :: rest =>
+    match a.toNat?, len.toNat?, parsePos [] [] rest with
+    | some a, some len, some (recs, ops) => if a > 1 then (st, "bad-op") else (st, posQuery (a == 1) len recs ops)
+    | _, _, _ => (st, "bad-op")
   | "load" :: g :: rest =>
     match g.splitOn ":" with
     | ["g", bl] =>
@@ -85,7 +123,7 @@ def step (st : OState) (toks : List String) : OState × String :=
       | .error e => (st, s!"panic {e.replace " " "_"}")
       | .ok (s1, s2, s3) =>
         let tie := (farthest s1.n).2.2
-        (st, s!"ok {s1.n.tip} {s2.n.tip} {coinsStr s2.n.utxo} {s3.n.tip} {coinsStr s3.n.utxo} {if tie then 1 else 0}")
+        (st, s!"ok {s1.n.tip} {s2.n.tip} {coinsStr s2.n.utxo} {s3.n.tip} {coinsStr s3.n.utxo} {if tie then 1 else 0} {if s3.foreign then 1 else 0}")
   | _ => (st, "bad-op")
 
 def main : IO Unit := Proto.serve ({} : OState) step
